@@ -7,6 +7,16 @@ pub(crate) struct History {
     zero_length_matches: HashMap<*const Repeat, HashSet<usize>>,
 }
 
+#[cfg(regexml_verif)]
+impl History {
+    pub(crate) fn verif_seen(&self, repeat: &Repeat, position: usize) -> bool {
+        self.zero_length_matches
+            .get(&(repeat as *const Repeat))
+            .map(|positions| positions.contains(&position))
+            .unwrap_or(false)
+    }
+}
+
 impl History {
     pub(crate) fn new() -> Self {
         Self {
